@@ -13,6 +13,7 @@ import TwModel
 import TwSpec
 import TwProofs.Lemmas.EvalStep
 import TwProofs.Lemmas.LoadWhole
+import TwProofs.Lemmas.TextComp
 
 namespace Tw.C07
 open Tw
@@ -193,6 +194,378 @@ theorem tilde_means_components (p : PS) (rest : Bytes) (h : p.cur.lit = 126 :: r
     (aliasPath p "components").1 = b "components" ++ [47] ++ rest := by
   unfold aliasPath
   simp [h]
+
+/-! ### from the bytes of the page and of the component files -/
+
+/-- the render: the page's text and, at each use, the component file's text with its `{{ name }}`
+    blocks filled from the use's own argument (bound in a new innermost scope) and the data -/
+def prender (comp : Bytes → List VItem) (env : Env) : List PItem → Bytes
+  | [] => []
+  | .text segs :: r => segsLit segs ++ prender comp env r
+  | .use u :: r => fill ([(u.k, .str (literalValue u.v))] :: env) (vpieces (comp (compName u.n))) ++ prender comp env r
+
+def prenderS (comp : Bytes → List VItem) (env : Env) : List PSpec → Bytes
+  | [] => []
+  | .text t :: r => t ++ prenderS comp env r
+  | .use name k v _ :: r => fill ([(k, .str (literalValue v))] :: env) (vpieces (comp name)) ++ prenderS comp env r
+
+theorem prenderS_pspec (comp : Bytes → List VItem) (env : Env) : ∀ (items : List PItem) (base : Nat),
+    prenderS comp env (pspec base items) = prender comp env items
+  | [], _ => rfl
+  | .text segs :: r, base => by simp [pspec, prenderS, prender, prenderS_pspec comp env r base]
+  | .use u :: r, base => by simp [pspec, prenderS, prender, prenderS_pspec comp env r (base + 1)]
+
+/-- what every use needs of the environment: its argument name is not `loop`, does not clash with a
+    visible name of another type, and the names the component file prints are the argument or visible -/
+def UsesFit (comp : Bytes → List VItem) (env : Env) : List PSpec → Prop
+  | [] => True
+  | .text _ :: r => UsesFit comp env r
+  | .use name k v _ :: r =>
+    (k == b "loop") = false ∧ (∀ old, env.get k = some old → old.type = .STRING) ∧
+      holesBound ([(k, .str (literalValue v))] :: env) (vpieces (comp name)) ∧ UsesFit comp env r
+
+/-- the table of component programs the loader built, as far as the evaluator looks at it -/
+def CompsFit (comp : Bytes → List VItem) (tbl : List (Nat × List Stmt)) (specs : List PSpec) : Prop :=
+  ∀ name k v cid, PSpec.use name k v cid ∈ specs →
+    ∃ stmts, lookupNat tbl cid = some stmts ∧ simpleBlock stmts = true ∧ piecesOf stmts = vpieces (comp name)
+
+/-- evaluation fuel that suffices -/
+def pneed (comp : Bytes → List VItem) : List PSpec → Nat
+  | [] => 1
+  | .text _ :: r => 1 + max 1 (pneed comp r)
+  | .use name _ _ _ :: r => 1 + max ((vpieces (comp name)).length + 5) (pneed comp r)
+
+/-- one use: the argument bound in a new scope, the component's program rendered there, the
+    caller's environment handed back -/
+theorem use_renders (comp : Bytes → List VItem) (f : Nat) (c : Ctx) (env : Env) (t tv : Token) (name k v : Bytes) (cid : Nat)
+    (stmts : List Stmt) (hl : lookupNat c.comps cid = some stmts) (hsb : simpleBlock stmts = true)
+    (hpc : piecesOf stmts = vpieces (comp name)) (hk : (k == b "loop") = false)
+    (hty : ∀ old, env.get k = some old → old.type = .STRING)
+    (hb : holesBound ([(k, .str (literalValue v))] :: env) (vpieces (comp name)))
+    (hf : (vpieces (comp name)).length + 4 ≤ f) :
+    evalStmt (f + 1) c env (.component t name (some [(k, .str tv v)]) cid) =
+      .ok ({ text := fill ([(k, .str (literalValue v))] :: env) (vpieces (comp name)) }, env) := by
+  rw [component_renders_its_program f c env t name cid [(k, .str tv v)] stmts hl]
+  obtain ⟨g, rfl⟩ : ∃ g, f = g + 2 := ⟨f - 2, by omega⟩
+  have hsort : sortByKey [(k, Expr.str tv v)] = [(k, Expr.str tv v)] := rfl
+  have hpairs : evalPairs (g + 2) c env (sortByKey [(k, Expr.str tv v)]) = .ok [(k, .str (literalValue v))] := by
+    rw [hsort]
+    simp [evalPairs, evalExpr]
+  rw [hpairs, Res.bind_ok]
+  have hbind : bindArgs env.push [(k, .str (literalValue v))] t.errorLine = .ok ([(k, .str (literalValue v))] :: env) := by
+    unfold bindArgs
+    have hset : env.push.set k (.str (literalValue v)) = .ok ([(k, .str (literalValue v))] :: env) := by
+      unfold Env.set
+      rw [if_neg (by simpa using hk)]
+      rw [env_push_get]
+      cases hg : env.get k with
+      | none => simp [Env.push, mapSet]
+      | some old =>
+        have := hty old hg
+        simp only []
+        rw [this]
+        simp [Val.type, Env.push, mapSet]
+    rw [hset]
+    simp [bindArgs]
+  rw [hbind, Res.bind_ok]
+  have hlen : stmts.length = (vpieces (comp name)).length := by rw [simple_length _ hsb, hpc]
+  rw [evalProg_simple c _ stmts (g + 2) [] hsb (by rw [hpc]; exact hb) (by omega), Res.bind_ok, hpc]
+  simp
+
+theorem evalProg_pspec (comp : Bytes → List VItem) (c : Ctx) (env : Env) : ∀ (specs : List PSpec) (ss : List Stmt) (fuel : Nat) (acc : Bytes),
+    ss.map pspecOf = specs.map some → CompsFit comp c.comps specs → UsesFit comp env specs → pneed comp specs ≤ fuel →
+    evalProg fuel c env ss acc = .ok (acc ++ prenderS comp env specs, env) := by
+  intro specs
+  induction specs with
+  | nil =>
+    intro ss fuel acc hs _ _ hf
+    have : ss = [] := by simpa using hs
+    subst this
+    obtain ⟨f, rfl⟩ : ∃ f, fuel = f + 1 := ⟨fuel - 1, by simp [pneed] at hf; omega⟩
+    rw [evalProg_nil]; simp [prenderS]
+  | cons sp r ih =>
+    intro ss fuel acc hs hc hu hf
+    cases ss with
+    | nil => simp at hs
+    | cons st rest =>
+      simp only [List.map_cons, List.cons.injEq] at hs
+      obtain ⟨hs1, hsr⟩ := hs
+      have hc' : CompsFit comp c.comps r := fun n k v cid h => hc n k v cid (List.mem_cons_of_mem _ h)
+      cases st with
+      | html t =>
+        simp only [pspecOf, Option.some.injEq] at hs1
+        subst hs1
+        obtain ⟨f, rfl⟩ : ∃ f, fuel = f + 2 := ⟨fuel - 2, by simp [pneed] at hf; omega⟩
+        have := ih rest (f + 1) (acc ++ t.lit) hsr hc' (by simpa [UsesFit] using hu) (by simp [pneed] at hf; omega)
+        rw [show f + 2 = (f + 1) + 1 from rfl, evalProg_cons, evalStmt_html, Res.bind_ok, this]
+        simp [prenderS, List.append_assoc]
+      | component t name arg cid =>
+        -- only the one-argument shape has a specification
+        cases arg with
+        | none => simp [pspecOf] at hs1
+        | some pairs =>
+          cases pairs with
+          | nil => simp [pspecOf] at hs1
+          | cons pr prs =>
+            obtain ⟨k, e⟩ := pr
+            cases prs with
+            | cons _ _ => simp [pspecOf] at hs1
+            | nil =>
+              cases e with
+              | str tv v =>
+                simp only [pspecOf, Option.some.injEq] at hs1
+                subst hs1
+                obtain ⟨stmts, hl, hsb, hpc⟩ := hc name k v cid (by simp)
+                obtain ⟨hk, hty, hb, hur⟩ := hu
+                obtain ⟨f, rfl⟩ : ∃ f, fuel = f + 2 := ⟨fuel - 2, by simp [pneed] at hf; omega⟩
+                have := ih rest (f + 1) (acc ++ fill ([(k, .str (literalValue v))] :: env) (vpieces (comp name))) hsr hc' hur
+                  (by simp [pneed] at hf; omega)
+                rw [show f + 2 = (f + 1) + 1 from rfl, evalProg_cons,
+                  use_renders comp f c env t tv name k v cid stmts hl hsb hpc hk hty hb (by simp [pneed] at hf; omega), Res.bind_ok, this]
+                simp [prenderS, List.append_assoc]
+              | _ => simp [pspecOf] at hs1
+      | _ => simp [pspecOf] at hs1
+
+/-! the loader on the recorded uses -/
+
+/-- the component files are where the loader looks for them, and they are text, comments and
+    `{{ name }}` blocks -/
+def FilesFit (fs : Fs) (c : Cfg) (comp : Bytes → List VItem) (uses : List CompUse) : Prop :=
+  ∀ u ∈ uses, u.slots = [] ∧ readFile fs (templatePath c u.name) = .ok (vitemsSrc (comp u.name)) ∧ VItemsOK (comp u.name)
+
+theorem programOf_simple (fs : Fs) (c : Cfg) (comp : Bytes → List VItem) (path : Bytes) (u : CompUse) (hs : u.slots = [])
+    (hr : readFile fs (templatePath c u.name) = .ok (vitemsSrc (comp u.name))) (hok : VItemsOK (comp u.name)) :
+    ∃ stmts, programOf fs c path u = .ok stmts ∧ simpleBlock stmts = true ∧ piecesOf stmts = vpieces (comp u.name) := by
+  obtain ⟨prog, hp, h1, h2⟩ := parse_vitems_base (comp u.name) hok compBase
+  refine ⟨prog.stmts, ?_, h1, h2⟩
+  unfold programOf
+  rw [hr]
+  simp only []
+  have hpf : parseFile fs (templatePath c u.name) compBase = .ok prog := by unfold parseFile; rw [hr]; simp only [hp]
+  rw [hpf]
+  simp only []
+  unfold applyComponent
+  rw [hs]
+  simp [findDuplicateSlot, List.foldlM, pure, Except.pure]
+
+theorem applyComponents_simple (fs : Fs) (c : Cfg) (comp : Bytes → List VItem) (path : Bytes) (uses : List CompUse)
+    (hfit : FilesFit fs c comp uses) :
+    ∃ out, applyComponents fs c uses path = .ok out ∧ out.map Prod.fst = uses.map CompUse.cid ∧
+      ∀ o ∈ out, ∃ u ∈ uses, o.1 = u.cid ∧ simpleBlock o.2 = true ∧ piecesOf o.2 = vpieces (comp u.name) := by
+  -- every use has a program …
+  have hall : ∀ u ∈ uses, ∃ stmts, programOf fs c path u = .ok stmts ∧ simpleBlock stmts = true ∧ piecesOf stmts = vpieces (comp u.name) :=
+    fun u hu => programOf_simple fs c comp path u (hfit u hu).1 (hfit u hu).2.1 (hfit u hu).2.2
+  -- … so the fold succeeds
+  have hfold : ∀ (us : List CompUse) (acc : List (Nat × List Stmt)), (∀ u ∈ us, u ∈ uses) →
+      ∃ out, us.foldlM (fun acc use =>
+          let cp := templatePath c use.name
+          match readFile fs cp with
+          | .notExist => .error (failOf "ErrUndefinedComponent" use.tok.errorLine [use.name] path)
+          | .otherErr => .error (osFail use.tok.errorLine cp)
+          | .ok _ =>
+            match parseFile fs cp compBase with
+            | .error f => .error f
+            | .ok comp' =>
+              match applyComponent use comp' path with
+              | .error f => .error f
+              | .ok stmts => .ok (acc ++ [(use.cid, stmts)])) acc = Except.ok (acc ++ out) ∧
+        out.map Prod.fst = us.map CompUse.cid ∧
+        ∀ o ∈ out, ∃ u ∈ us, o.1 = u.cid ∧ simpleBlock o.2 = true ∧ piecesOf o.2 = vpieces (comp u.name) := by
+    intro us
+    induction us with
+    | nil => intro acc _; exact ⟨[], by simp [List.foldlM, pure, Except.pure], rfl, fun o h => (by cases h)⟩
+    | cons u r ih =>
+      intro acc hsub
+      obtain ⟨stmts, hp, h1, h2⟩ := hall u (hsub u (by simp))
+      have hr := (hfit u (hsub u (by simp))).2.1
+      -- unfold the program of this use
+      unfold programOf at hp
+      rw [hr] at hp
+      simp only [] at hp
+      obtain ⟨out, ho1, ho2, ho3⟩ := ih (acc ++ [(u.cid, stmts)]) (fun x hx => hsub x (List.mem_cons_of_mem _ hx))
+      refine ⟨(u.cid, stmts) :: out, ?_, by simp [ho2], ?_⟩
+      · simp only [List.foldlM_cons, bind, Except.bind, hr]
+        cases hpf : parseFile fs (templatePath c u.name) compBase with
+        | error f => rw [hpf] at hp; cases hp
+        | ok comp' =>
+          rw [hpf] at hp
+          simp only [] at hp ⊢
+          rw [hp]
+          simp only []
+          rw [ho1]
+          simp
+      · intro o ho
+        rcases List.mem_cons.mp ho with h | h
+        · rw [h]; exact ⟨u, by simp, rfl, h1, h2⟩
+        · obtain ⟨u', hu', rest⟩ := ho3 o h
+          exact ⟨u', List.mem_cons_of_mem _ hu', rest⟩
+  unfold applyComponents
+  obtain ⟨out, h1, h2, h3⟩ := hfold uses [] (fun u hu => hu)
+  refine ⟨out, ?_, h2, h3⟩
+  simp only [List.nil_append] at h1
+  exact h1
+
+theorem usesOf_ge : ∀ (items : List PItem) (base : Nat) (x : Bytes × Nat), x ∈ usesOf base items → base ≤ x.2
+  | [], _, _, h => by simp [usesOf] at h
+  | .text _ :: r, base, x, h => usesOf_ge r base x (by simpa [usesOf] using h)
+  | .use u :: r, base, x, h => by
+    simp only [usesOf, List.mem_cons] at h
+    rcases h with h | h
+    · rw [h]; exact Nat.le_refl _
+    · have := usesOf_ge r (base + 1) x h; omega
+
+theorem usesOf_unique : ∀ (items : List PItem) (base : Nat) (n1 n2 : Bytes) (cid : Nat),
+    (n1, cid) ∈ usesOf base items → (n2, cid) ∈ usesOf base items → n1 = n2
+  | [], _, _, _, _, h, _ => by simp [usesOf] at h
+  | .text _ :: r, base, n1, n2, cid, h1, h2 => usesOf_unique r base n1 n2 cid (by simpa [usesOf] using h1) (by simpa [usesOf] using h2)
+  | .use u :: r, base, n1, n2, cid, h1, h2 => by
+    simp only [usesOf, List.mem_cons, Prod.mk.injEq] at h1 h2
+    rcases h1 with ⟨e1, c1⟩ | h1
+    · rcases h2 with ⟨e2, _⟩ | h2
+      · rw [e1, e2]
+      · have := usesOf_ge r (base + 1) _ h2; simp only at this; omega
+    · rcases h2 with ⟨_, c2⟩ | h2
+      · have := usesOf_ge r (base + 1) _ h1; simp only at this; omega
+      · exact usesOf_unique r (base + 1) n1 n2 cid h1 h2
+
+theorem usesOf_mem : ∀ (items : List PItem) (base : Nat) (x : Bytes × Nat), x ∈ usesOf base items →
+    ∃ u, PItem.use u ∈ items ∧ x.1 = compName u.n
+  | [], _, _, h => by simp [usesOf] at h
+  | .text _ :: r, base, x, h => by
+    obtain ⟨u, hu, hx⟩ := usesOf_mem r base x (by simpa [usesOf] using h)
+    exact ⟨u, List.mem_cons_of_mem _ hu, hx⟩
+  | .use u :: r, base, x, h => by
+    simp only [usesOf, List.mem_cons] at h
+    rcases h with h | h
+    · exact ⟨u, by simp, by rw [h]⟩
+    · obtain ⟨u', hu', hx⟩ := usesOf_mem r (base + 1) x h
+      exact ⟨u', List.mem_cons_of_mem _ hu', hx⟩
+
+theorem pspec_uses : ∀ (items : List PItem) (base : Nat) (name k v : Bytes) (cid : Nat),
+    PSpec.use name k v cid ∈ pspec base items → (name, cid) ∈ usesOf base items
+  | [], _, _, _, _, _, h => by simp [pspec] at h
+  | .text _ :: r, base, name, k, v, cid, h => by
+    simp only [pspec, List.mem_cons] at h
+    rcases h with h | h
+    · cases h
+    · simpa [usesOf] using pspec_uses r base name k v cid h
+  | .use u :: r, base, name, k, v, cid, h => by
+    simp only [pspec, List.mem_cons] at h
+    rcases h with h | h
+    · cases h; simp [usesOf]
+    · simp only [usesOf, List.mem_cons]; exact Or.inr (pspec_uses r (base + 1) name k v cid h)
+
+theorem lookupNat_of_fst {α} (l : List (Nat × α)) (k : Nat) (h : k ∈ l.map Prod.fst) :
+    ∃ v, lookupNat l k = some v ∧ (k, v) ∈ l := by
+  induction l with
+  | nil => simp at h
+  | cons x r ih =>
+    obtain ⟨k0, v0⟩ := x
+    unfold lookupNat
+    by_cases he : k0 = k
+    · subst he
+      exact ⟨v0, by simp [List.find?], by simp⟩
+    · have hr : k ∈ r.map Prod.fst := by
+        simp only [List.map_cons, List.mem_cons] at h
+        rcases h with h | h
+        · exact absurd h.symm he
+        · exact h
+      obtain ⟨v, hv, hm⟩ := ih hr
+      refine ⟨v, ?_, List.mem_cons_of_mem _ hm⟩
+      have hne : (k0 == k) = false := by simpa using he
+      simp only [List.find?_cons, hne]
+      exact hv
+
+/-- **a page with component uses, from the bytes of the page and of the component files to the
+    output**: for every page file of text runs and uses `@component("name", { key: "text" })`
+    (either quote, any white space inside the braces, no slots) and component files of text,
+    comments and `{{ name }}` blocks found where the loader looks for them, the loader registers
+    the page, and rendering it with data gives the page's text with, at each use, the component
+    file's rendering under that use's OWN argument — bound to the escaped text in a new innermost
+    scope on top of the data — whatever the other uses pass and also when several uses name the
+    same file.  Lexer (`lex_comp`, `tokenize_gitems`), parser (`parse_component_stmt`,
+    `parse_comp_page`, `parse_vitems_base`), loader (`applyComponents_simple`) and evaluator
+    (`use_renders`, `evalProg_pspec`) composed. -/
+theorem component_page_renders_from_the_sources (fs : Fs) (c : Cfg) (p : Bytes) (items : List PItem) (comp : Bytes → List VItem)
+    (hok : PItemsOK items) (hP : readFile fs p = .ok (compPageSrc items))
+    (hfiles : ∀ u, PItem.use u ∈ items →
+      readFile fs (templatePath c (compName u.n)) = .ok (vitemsSrc (comp (compName u.n))) ∧ VItemsOK (comp (compName u.n))) :
+    ∃ pg, loadPage fs c p = .ok (some pg) ∧
+      ∀ (w : World) (t : Template) (name : Bytes) (data : List (Bytes × GoVal)) (env : Env),
+        mapGet t name = some pg → envFromMap data = .ok env → UsesFit comp env (pspec 0 items) →
+        pneed comp (pspec 0 items) ≤ evalFuel → tplString w t name data = .ok (prender comp env items) := by
+  obtain ⟨prog, hpp, huse, hres, hcomps, hslots, hstmts⟩ := parse_comp_page items hok
+  have hpf : parseFile fs p 0 = .ok prog := by unfold parseFile; rw [hP]; simp only [hpp]
+  have hfit : FilesFit fs c comp prog.components := by
+    intro cu hcu
+    have hm : (cu.name, cu.cid) ∈ usesOf 0 items := by rw [← hcomps]; exact List.mem_map_of_mem (f := fun cu => (cu.name, cu.cid)) hcu
+    obtain ⟨u, hu, hn⟩ := usesOf_mem items 0 _ hm
+    simp only at hn
+    rw [hn]
+    exact ⟨hslots cu hcu, (hfiles u hu).1, (hfiles u hu).2⟩
+  obtain ⟨out, hout, hfst, hprogs⟩ := applyComponents_simple fs c comp p prog.components hfit
+  have hload : loadPage fs c p = .ok (some { stmts := prog.stmts, ctx := { comps := out } }) := by
+    unfold loadPage
+    rw [hpf]
+    simp only [huse, hout, hres]
+    rfl
+  refine ⟨_, hload, ?_⟩
+  intro w t name data env hpg hd hu hsz
+  unfold tplString envOrFail
+  simp only [hd, hpg]
+  have hcf : CompsFit comp out (pspec 0 items) := by
+    intro n k v cid hm
+    have hmu := pspec_uses items 0 n k v cid hm
+    have hcid : cid ∈ out.map Prod.fst := by
+      rw [hfst]
+      have : cid ∈ (usesOf 0 items).map Prod.snd := List.mem_map.mpr ⟨(n, cid), hmu, rfl⟩
+      rw [← hcomps] at this
+      simpa [List.map_map] using this
+    obtain ⟨stmts, hl, hmem⟩ := lookupNat_of_fst out cid hcid
+    obtain ⟨cu, hcu, hc1, hc2, hc3⟩ := hprogs _ hmem
+    have hm2 : (cu.name, cu.cid) ∈ usesOf 0 items := by rw [← hcomps]; exact List.mem_map_of_mem (f := fun cu => (cu.name, cu.cid)) hcu
+    simp only at hc1
+    rw [← hc1] at hm2
+    have hname : cu.name = n := usesOf_unique items 0 cu.name n cid hm2 hmu
+    exact ⟨stmts, hl, hc2, by rw [hc3, hname]⟩
+  have hev := evalProg_pspec comp ({ comps := out, custom := w.custom } : Ctx) env (pspec 0 items) prog.stmts evalFuel [] hstmts hcf hu hsz
+  rw [hev]
+  simp [resToOut, prenderS_pspec]
+
+section example_component
+private def exItems : List PItem := [.text [.plain (b "<ul>")],
+  .use ⟨34, b "~item", [32], [32], b "label", [32], 34, b "A & B", [32]⟩, .text [.plain (b "|")],
+  .use ⟨39, b "~item", [], [], b "label", [], 39, b "c", []⟩, .text [.plain (b "</ul>")]]
+private def exComp : Bytes → List VItem := fun _ =>
+  [.text [.plain (b "<li>")], .print [32] (b "label") [32], .text [.plain (b " for ")], .print [] (b "who") [], .text [.plain (b "</li>")]]
+private def exFs : Fs :=
+  [ (b "templates", .dir), (b "templates/components", .dir),
+    (b "templates/components/item.tw.html", .file (b "<li>{{ label }} for {{who}}</li>")),
+    (b "templates/page.tw.html", .file (b "<ul>@component(\"~item\", { label: \"A & B\" })|@component('~item',{label:'c'})</ul>")) ]
+
+example : compPageSrc exItems = b "<ul>@component(\"~item\", { label: \"A & B\" })|@component('~item',{label:'c'})</ul>" := by decide
+example : vitemsSrc (exComp []) = b "<li>{{ label }} for {{who}}</li>" := by decide
+
+/-- the hypotheses of the theorem hold for a concrete tree; two uses of one file, each with its own argument -/
+example : ∃ pg, loadPage exFs defaultCfg (b "templates/page.tw.html") = .ok (some pg) ∧
+    ∀ (w : World) (t : Template) (name : Bytes), mapGet t name = some pg →
+      tplString w t name [(b "who", .str (b "me"))] = .ok (b "<ul><li>A &amp; B for me</li>|<li>c for me</li></ul>") := by
+  obtain ⟨pg, h1, h2⟩ := component_page_renders_from_the_sources exFs defaultCfg (b "templates/page.tw.html") exItems exComp (by decide) (by rfl)
+    (by
+      intro u hu
+      simp only [exItems, List.mem_cons, PItem.use.injEq, List.not_mem_nil, or_false, reduceCtorEq, false_or] at hu
+      rcases hu with rfl | rfl <;> exact ⟨by rfl, by decide⟩)
+  refine ⟨pg, h1, ?_⟩
+  intro w t name hpg
+  have hnone : Env.get [[(b "who", Val.str (b "me"))]] (b "label") = none := by decide
+  have hfit : UsesFit exComp [[(b "who", .str (b "me"))]] (pspec 0 exItems) :=
+    ⟨by decide, fun old h => (by rw [show Env.get _ _ = none from hnone] at h; cases h), by decide, by decide,
+      fun old h => (by rw [show Env.get _ _ = none from hnone] at h; cases h), by decide, trivial⟩
+  have := h2 w t name [(b "who", .str (b "me"))] [[(b "who", .str (b "me"))]] hpg (by rfl) hfit (by decide)
+  have hr : prender exComp [[(b "who", .str (b "me"))]] exItems = b "<ul><li>A &amp; B for me</li>|<li>c for me</li></ul>" := by decide
+  rw [hr] at this
+  exact this
+end example_component
 
 /-! ### an instance through loader and evaluator: one component used three times -/
 
